@@ -3,12 +3,17 @@ use crate::common::Args;
 pub mod c01;
 pub mod c02;
 pub mod c03;
+pub mod c04;
+pub mod c04_l2;
+pub mod c05;
+pub mod c05_l2;
 pub mod c06;
 pub mod c08;
 pub mod c10;
 pub mod c11;
 pub mod c11_l2;
 pub mod c14;
+pub mod c15;
 pub mod c17;
 pub mod c18;
 pub mod c20;
@@ -19,11 +24,14 @@ pub fn dispatch(args: &Args) -> i32 {
         "C01" => c01::run(args),
         "C02" => c02::run(args),
         "C03" => c03::run(args),
+        "C04" => c04::run(args),
+        "C05" => c05::run(args),
         "C06" => c06::run(args),
         "C08" => c08::run(args),
         "C10" => c10::run(args),
         "C11" => c11::run(args),
         "C14" => c14::run(args),
+        "C15" => c15::run(args),
         "C17" => c17::run(args),
         "C18" => c18::run(args),
         "C20" => c20::run(args),
